@@ -195,7 +195,7 @@ theorem c20_semantic_after_code_reviewed :
 /-- **From the tree model to the code model.** The theorems above are about the tree lowering `lowerF` (semantic after: `c20_function_partial` is about `lowerF F`, flags included). This one closes the gap to
     M3, the transcription of the code's lowering on flat instruction lists: flatten the annotated structured function to the instructions
     and instrumentation lists the API would have built, let M3 lower it (`resolve_special_instrumentation` + emission, proved to be the
-    stack machine in Lemmas/StackFull.lean), and the tokens are exactly those of `lowerF F`, the locals added exactly its flags
+    stack machine in Lemmas/StackFull.lean), and the tokens are exactly `flattenF (lowerF F)` — what the sem driver prints for the tree model — and the locals added exactly its flags
     (Lemmas/Bridge.lean, by mutual induction over the program with the machine's frames as the context). Scope: at most two flag-guarded
     bodies behind one `end` (beyond that the code's chain is ill-formed: F27), no flagged branch to a loop, non-empty branch probes, branch
     depths inside the function, flags numbered in program order, no `before` code on the first instruction next to function-level code
@@ -205,8 +205,8 @@ theorem c20_code_lowering_is_tree_lowering (F : Orca.Sem.Func) (nl : Nat) (hok :
     (hnum : Orca.Sem.flagsL F.body = List.range' nl (Orca.Sem.flagsL F.body).length)
     (hfirst : (F.entry = [] ∧ F.exit = []) ∨ ((Orca.Bridge.flatF F nl).body.head?.map (·.before)) = some []) :
     Orca.Lower.lower (Orca.Bridge.flatF F nl)
-      = (Orca.Bridge.toksL (Orca.Sem.lowerF F).body ++ [Orca.Lower.tEnd], (Orca.Sem.flagsL F.body).length) :=
-  Orca.Bridge.code_lowering_is_tree_lowering F nl hok hd hnum hfirst
+      = (Orca.SemTree.flattenF (Orca.Sem.lowerF F), (Orca.Sem.flagsL F.body).length) :=
+  Orca.Bridge.code_lowering_is_flattened_tree_lowering F nl hok hd hnum hfirst
 
 /-! non-vacuity (decided): a function with exit probes whose body is a block with an exit probe containing a flagged `br_if 0` (flag
     local 2) and a `return`: every hypothesis of the bridge holds -/
